@@ -37,6 +37,164 @@ JOINT = '''	joint := func(variant, P, Q string, s1, s2 *big.Int) string {
 	}
 '''
 
+JOINTA_GEN = '''	// aliasing patterns (c03.go, op `alias`): operands are affine, the receiver is Jacobian: the receiver cannot BE an
+	// operand; `rp` / `rq` / `rpq` degrade to "the receiver holds the operand's value before the call"
+	jointA := func(variant, al string, st bool, P, Q string, s1, s2 *big.Int) string {
+		p := in(P)
+		q := in(Q)
+		p0, q0 := p, q
+		c1, c2 := new(big.Int).Set(s1), new(big.Int).Set(s2)
+		pp, qq := &p, &q
+		if al == "pq" || al == "rpq" {
+			qq = pp
+		}
+		if st {
+			s2 = s1
+		}
+		var rj Jac
+		switch al {
+		case "d", "pq":
+		case "dirty":
+			rj = d3
+		case "rp", "rpq":
+			rj.FromAffine(&p)
+		case "rq":
+			rj.FromAffine(&q)
+		default:
+			return "bad-op"
+		}
+		switch variant {
+		case "gen":
+			rj.JointScalarMultiplication(pp, qq, s1, s2)
+		case "base":
+			rj.JointScalarMultiplicationBase(qq, s1, s2)
+		default:
+			return "bad-op"
+		}
+		if p != p0 || q != q0 {
+			return "mutated:point-operand"
+		}
+		if s1.Cmp(c1) != 0 || s2.Cmp(c2) != 0 {
+			return "mutated:scalar"
+		}
+		var res Aff
+		res.FromJacobian(&rj)
+		return out(&res)
+	}
+'''
+
+JOINTA_STARK = '''	// aliasing patterns (c03.go, op `alias`): JointScalarMultiplication takes Jacobian operands here: every partition of
+	// {receiver, p1, p2} is expressible
+	jointA := func(variant, al string, st bool, P, Q string, s1, s2 *big.Int) string {
+		p := in(P)
+		q := in(Q)
+		c1, c2 := new(big.Int).Set(s1), new(big.Int).Set(s2)
+		if st {
+			s2 = s1
+		}
+		var rj, pj, qj Jac
+		pj.FromAffine(&p)
+		qj.FromAffine(&q)
+		pj0, qj0, q0 := pj, qj, q
+		r, pp, qq := &rj, &pj, &qj
+		switch al {
+		case "d":
+		case "dirty":
+			rj = d3
+		case "rp":
+			r = pp
+		case "rq":
+			r = qq
+		case "pq":
+			qq = pp
+		case "rpq":
+			r, qq = pp, pp
+		default:
+			return "bad-op"
+		}
+		switch variant {
+		case "gen":
+			r.JointScalarMultiplication(pp, qq, s1, s2)
+			if (r != pp && pj != pj0) || (r != &qj && qj != qj0) {
+				return "mutated:point-operand"
+			}
+		case "base":
+			if al != "d" && al != "dirty" {
+				return "bad-op"
+			}
+			r.JointScalarMultiplicationBase(&q, s1, s2)
+			if q != q0 {
+				return "mutated:point-operand"
+			}
+		default:
+			return "bad-op"
+		}
+		if s1.Cmp(c1) != 0 || s2.Cmp(c2) != 0 {
+			return "mutated:scalar"
+		}
+		var res Aff
+		res.FromJacobian(r)
+		return out(&res)
+	}
+'''
+
+SMA = '''	// [3]G: what a "dirty" receiver holds before the call
+	var d3 Jac
+	d3.Double(&gJac).AddAssign(&gJac)
+	smA := func(variant, al, P string, s *big.Int) string {
+		p := in(P)
+		p0 := p
+		c := new(big.Int).Set(s)
+		var res Aff
+		var j, rj Jac
+		switch variant + "/" + al {
+		case "aff/d":
+			res.ScalarMultiplication(&p, s)
+		case "aff/dirty":
+			res.FromJacobian(&d3)
+			res.ScalarMultiplication(&p, s)
+		case "aff/rp":
+			p.ScalarMultiplication(&p, s)
+			res, p = p, p0
+		case "jac/d", "jac/dirty", "jac/rp":
+			j.FromAffine(&p)
+			j0 := j
+			if al == "dirty" {
+				rj = d3
+			}
+			if al == "rp" {
+				j.ScalarMultiplication(&j, s)
+				rj, j = j, j0
+			} else {
+				rj.ScalarMultiplication(&j, s)
+			}
+			if j != j0 {
+				return "mutated:point-operand"
+			}
+			res.FromJacobian(&rj)
+		case "base/d":
+			res.ScalarMultiplicationBase(s)
+		case "base/dirty":
+			res.FromJacobian(&d3)
+			res.ScalarMultiplicationBase(s)
+		case "basejac/d", "basejac/dirty":
+			if al == "dirty" {
+				rj = d3
+			}
+			{basejac}
+		default:
+			return "bad-op"
+		}
+		if p != p0 {
+			return "mutated:point-operand"
+		}
+		if s.Cmp(c) != 0 {
+			return "mutated:scalar"
+		}
+		return out(&res)
+	}
+'''
+
 def group(d, n, kind):
     I = ident(d); C = "c_" + I; FR = "fr_" + I; FP = "fp_" + I
     stark = d == "stark-curve"
@@ -81,6 +239,11 @@ def group(d, n, kind):
 		return join(o)
 	}}"""
     jointblock = JOINT.replace("{jointgen}", jointgen) if n == 1 else "\tvar joint func(variant, P, Q string, s1, s2 *big.Int) string\n"
+    if n == 1:
+        jointblock += JOINTA_STARK if stark else JOINTA_GEN
+    else:
+        jointblock += "\tvar jointA func(variant, al string, st bool, P, Q string, s1, s2 *big.Int) string\n"
+    smablock = SMA.replace("{basejac}", basejac.replace("\n\t\t\t", "\n\t\t\t\t") if not stark else 'return "bad-op"')
     return f"""
 // ---- {d} G{n}
 func init() {{
@@ -154,9 +317,9 @@ func init() {{
 		}}
 		return out(&res)
 	}}
-{jointblock}	_ = p0
+{smablock}{jointblock}	_ = p0
 	c03Register(&c03Group{{curve: "{d}", grp: "g{n}", field: {field}, a: aTok, b: xout(&bt), g: out(&gAff),
-		p: {FP}.Modulus(), r: {FR}.Modulus(), limbs: {FR}.Limbs, noBaseJac: {'true' if stark else 'false'}, naive: naive, sm: sm, joint: joint,
+		p: {FP}.Modulus(), r: {FR}.Modulus(), limbs: {FR}.Limbs, noBaseJac: {'true' if stark else 'false'}, naive: naive, sm: sm, joint: joint, smA: smA, jointA: jointA,
 		batch: {batch}}})
 }}
 """
@@ -214,8 +377,72 @@ func init() {{
 		}}
 		return out(&res)
 	}}
+	// aliasing patterns (c03.go, op `alias`): d / dirty receiver (holds [2]Base) / receiver = operand
+	smA := func(variant, al, P string, s *big.Int) string {{
+		if al != "d" && al != "dirty" && al != "rp" {{
+			return "bad-op"
+		}}
+		p := in(P)
+		c := new(big.Int).Set(s)
+		var res, d2 Aff
+		d2.Double(&cp.Base)
+		switch variant {{
+		case "aff":
+			a, a0 := p, p
+			b := &res
+			if al == "dirty" {{
+				res = d2
+			}}
+			if al == "rp" {{
+				b = &a
+			}}
+			b.ScalarMultiplication(&a, s)
+			if al != "rp" && a != a0 {{
+				return "mutated:point-operand"
+			}}
+			res = *b
+		case "proj":
+			var a, r Proj
+			a.FromAffine(&p)
+			a0 := a
+			b := &r
+			if al == "dirty" {{
+				r.FromAffine(&d2)
+			}}
+			if al == "rp" {{
+				b = &a
+			}}
+			b.ScalarMultiplication(&a, s)
+			if al != "rp" && a != a0 {{
+				return "mutated:point-operand"
+			}}
+			res.FromProj(b)
+		case "ext":
+			var a, r Ext
+			a.FromAffine(&p)
+			a0 := a
+			b := &r
+			if al == "dirty" {{
+				r.FromAffine(&d2)
+			}}
+			if al == "rp" {{
+				b = &a
+			}}
+			b.ScalarMultiplication(&a, s)
+			if al != "rp" && a != a0 {{
+				return "mutated:point-operand"
+			}}
+			res.FromExtended(b)
+		default:
+			return "bad-op"
+		}}
+		if s.Cmp(c) != 0 {{
+			return "mutated:scalar"
+		}}
+		return out(&res)
+	}}
 	c03TEs["{name}"] = &c03TE{{curve: "{name}", q: hexBig({FR}.Modulus()), a: cp.A.Text(16), d: cp.D.Text(16),
-		order: hexBig(&cp.Order), b: out(&cp.Base), n: new(big.Int).Set(&cp.Order), naive: naive, sm: sm}}
+		order: hexBig(&cp.Order), b: out(&cp.Base), n: new(big.Int).Set(&cp.Order), naive: naive, sm: sm, smA: smA}}
 }}
 """
 
